@@ -153,7 +153,7 @@ func main() {
 	defer o.Close()
 	r := hx.NewRng(hx.SeedFromEnv())
 	o.Put(run(110, 0, []int{0, 1, 2, 3}))
-	o.Put(run(110, 1, []int{0, 2, 3}))
+	o.Put(run(110, 1, []int{0, 1, 2, 3}))
 	for i := 0; i < *cases; i++ {
 		honest := []int{}
 		for v := 0; v < 4; v++ {
